@@ -20,6 +20,11 @@ import (
 	"github.com/bnb-chain/tss-lib/v2/crypto/paillier"
 	"github.com/bnb-chain/tss-lib/v2/crypto/schnorr"
 	"github.com/bnb-chain/tss-lib/v2/crypto/vss"
+	ecdsareshare "github.com/bnb-chain/tss-lib/v2/ecdsa/resharing"
+	ecdsasign "github.com/bnb-chain/tss-lib/v2/ecdsa/signing"
+	eddsakeygen "github.com/bnb-chain/tss-lib/v2/eddsa/keygen"
+	eddsareshare "github.com/bnb-chain/tss-lib/v2/eddsa/resharing"
+	eddsasign "github.com/bnb-chain/tss-lib/v2/eddsa/signing"
 	"github.com/bnb-chain/tss-lib/v2/tss"
 
 	"verif/harness/internal/val"
@@ -283,6 +288,57 @@ func init() {
 		}
 		return val.Some(pointV(p))
 	})
+	// msg_point_door door curve x y : the point as the named message's decoder accepts it (Some [x y]) or refuses it (None).
+	// doors: the Schnorr commitment of a proof carried by a message, the public key announced in resharing
+	vc.Register("msg_point_door", func(a []val.V) val.V {
+		ec := curveByName(val.AsAtom(a[1]))
+		x, y := val.AsInt(a[2]).Bytes(), val.AsInt(a[3]).Bytes()
+		t := []byte{1}
+		var p *crypto.ECPoint
+		var err error
+		switch val.AsAtom(a[0]) {
+		case "ecdsa-sign-r4":
+			var pf *schnorr.ZKProof
+			pf, err = (&ecdsasign.SignRound4Message{ProofAlphaX: x, ProofAlphaY: y, ProofT: t}).UnmarshalZKProof(ec)
+			if err == nil {
+				p = pf.Alpha
+			}
+		case "ecdsa-sign-r6":
+			var pf *schnorr.ZKProof
+			pf, err = (&ecdsasign.SignRound6Message{ProofAlphaX: x, ProofAlphaY: y, ProofT: t}).UnmarshalZKProof(ec)
+			if err == nil {
+				p = pf.Alpha
+			}
+		case "ecdsa-sign-r6v":
+			var pf *schnorr.ZKVProof
+			pf, err = (&ecdsasign.SignRound6Message{VProofAlphaX: x, VProofAlphaY: y, VProofT: t, VProofU: t}).UnmarshalZKVProof(ec)
+			if err == nil {
+				p = pf.Alpha
+			}
+		case "eddsa-keygen-r2":
+			var pf *schnorr.ZKProof
+			pf, err = (&eddsakeygen.KGRound2Message2{ProofAlphaX: x, ProofAlphaY: y, ProofT: t}).UnmarshalZKProof(ec)
+			if err == nil {
+				p = pf.Alpha
+			}
+		case "eddsa-sign-r2":
+			var pf *schnorr.ZKProof
+			pf, err = (&eddsasign.SignRound2Message{ProofAlphaX: x, ProofAlphaY: y, ProofT: t}).UnmarshalZKProof(ec)
+			if err == nil {
+				p = pf.Alpha
+			}
+		case "ecdsa-reshare-pub":
+			p, err = (&ecdsareshare.DGRound1Message{EcdsaPubX: x, EcdsaPubY: y}).UnmarshalECDSAPub(ec)
+		case "eddsa-reshare-pub":
+			p, err = (&eddsareshare.DGRound1Message{EddsaPubX: x, EddsaPubY: y}).UnmarshalEDDSAPub(ec)
+		default:
+			return val.A("BadCase")
+		}
+		if err != nil || p == nil {
+			return val.None
+		}
+		return val.Some(pointV(p))
+	})
 	vc.Register("unflatten", func(a []val.V) val.V {
 		ec := curveByName(val.AsAtom(a[0]))
 		ps, err := crypto.UnFlattenECPoints(ec, val.AsInts(a[1]))
@@ -389,6 +445,25 @@ func init() {
 		q3 := q3of(q)
 		q5 := mul(q3, mul(q, q))
 		q7 := mul(mul(q3, q3), q)
+		// optional 10th argument: what happens to a ciphertext in transit (cA on its way to Bob / cB on its way back to Alice)
+		tamper := "none"
+		if len(a) > 9 {
+			tamper = val.AsAtom(a[9])
+		}
+		alter := func(which string, c *big.Int) *big.Int {
+			N2 := mul(pk.N, pk.N)
+			switch tamper {
+			case which + "-neg": // the integer -c (the hash of a proof transcript reads Bytes(), which drops the sign)
+				return new(big.Int).Neg(c)
+			case which + "-mirror": // N^2 - c
+				return new(big.Int).Sub(N2, c)
+			case which + "-plusN2": // c + N^2: the same residue, not in [0, N^2)
+				return new(big.Int).Add(c, N2)
+			case which + "+1":
+				return add(c, 1)
+			}
+			return c
+		}
 		return withStream(func() val.V {
 			cA, pfA, err := mta.AliceInit(ec, pk, av, pb[0], pb[1], pb[2],
 				streamFor(d(xA, pk.N), d(ar[0], q3), d(ar[1], pk.N), d(ar[2], mul(q3, pb[0])), d(ar[3], mul(q, pb[0]))))
@@ -399,12 +474,14 @@ func init() {
 				d(br[0], q3), d(br[1], mul(q, pa[0])), d(br[2], mul(q, pa[0])), d(br[3], mul(q3, pa[0])), d(br[4], mul(q3, pa[0])), d(br[5], pk.N), d(br[6], q7))
 			var beta, cB *big.Int
 			var alpha *big.Int
+			cA = alter("cA", cA)
 			if B == nil {
 				var pfB *mta.ProofBob
 				beta, cB, _, pfB, err = mta.BobMid(session, ec, pk, pfA, bv, cA, pa[0], pa[1], pa[2], pb[0], pb[1], pb[2], bobStream)
 				if err != nil {
 					return val.L(val.A("BobMidErr"), val.I(cA))
 				}
+				cB = alter("cB", cB)
 				alpha, err = mta.AliceEnd(session, ec, pk, pfB, pa[1], pa[2], cA, cB, pa[0], sk)
 			} else {
 				var pfB *mta.ProofBobWC
@@ -412,6 +489,7 @@ func init() {
 				if err != nil {
 					return val.L(val.A("BobMidErr"), val.I(cA))
 				}
+				cB = alter("cB", cB)
 				alpha, err = mta.AliceEndWC(session, ec, pk, pfB, B, cA, cB, pa[0], pa[1], pa[2], sk)
 			}
 			if err != nil {
